@@ -551,7 +551,10 @@ def main():
 def replay(rec):
     run = Run(PID, known=[])
     c = rec["case"]
-    if "ctor" in c:
+    if "constant" in c:
+        r = shard_constants()
+        viol = [v for v in r.violations if B.from_json(v["case"]).get("constant") == c["constant"]]
+    elif "ctor" in c:
         r = shard_constructors(0, 1)
         bad = [v for v in r.violations if v["case"] == B.to_json(c)]
         r.known = []
